@@ -1,5 +1,6 @@
 SPECIFICATION Spec
 CONSTANTS
+  AssignRule = "strict"
   CfgSpace <- MCSpaceIntended
 INVARIANT NoSilentWrong
 INVARIANT IntendedCorrect
